@@ -5,12 +5,35 @@ import os
 from vlib import *  # noqa
 
 T0 = 1_700_000_000
-EXTS = {1: "rs", 2: "py", 3: "c", 10: "foo", 11: "bar", 0: "zzz"}     # model extension id -> real extension
+EXTS = {1: "rs", 2: "py", 3: "c", 10: "foo", 11: "bar", 0: "zzz",       # model extension id -> real extension
+        12: "r", 13: "s", 14: "p", 15: "y"}                             # pieces of rs / py (extension-list boundary edits)
 BUILTIN_SYNTAX = {1: "ext:rs", 2: "ext:py", 3: "ext:c"}
 # custom languages: model language id -> (name, single-line markers, multi-line pairs)
-CUSTOM = {100: ("Hashy", ["#"], []), 101: ("Semi", [";;"], [["<<", ">>"]]), 102: ("Dashy", ["--"], []), 103: ("Slashy", ["//"], [["/*", "*/"]])}
+CUSTOM = {100: ("Hashy", ["#"], []), 101: ("Semi", [";;"], [["<<", ">>"]]), 102: ("Dashy", ["--"], []), 103: ("Slashy", ["//"], [["/*", "*/"]]),
+          # variants that differ from another definition only by where a list boundary lies, by an empty item,
+          # by swapped markers, by the name, or by one more pair (same name = an edit of that definition)
+          104: ("Hashy", ["#", "!"], []), 105: ("Hashy", ["#!"], []), 106: ("Hashy", ["#", ""], []),
+          107: ("Semi", [";;"], [[">>", "<<"]]), 108: ("Semi2", [";;"], [["<<", ">>"]]), 109: ("Slashy", ["/", "/"], [["/*", "*/"]]),
+          110: ("Semi", [";;"], [["<<", ">>"], ["/*", "*/"]]), 111: ("Semi", [";", ";"], [["<<", ">>"]])}
+# (table A, table B, extension id of the file to look at): a SetLanguages A -> B (or B -> A) edit that a hash
+# which loses list boundaries / names / order would not notice
+BOUNDARY_PAIRS = [
+    ([(10, 104)], [(10, 105)], 10),              # single_line_comments ["#","!"] <-> ["#!"]
+    ([(10, 100)], [(10, 106)], 10),              # ["#"] <-> ["#",""]   (empty item)
+    ([(10, 100)], [(10, 104)], 10),              # ["#"] <-> ["#","!"]
+    ([(10, 103)], [(10, 109)], 10),              # ["//"] <-> ["/","/"]
+    ([(10, 101)], [(10, 111)], 10),              # [";;"] <-> [";",";"]
+    ([(1, 100)], [(12, 100), (13, 100)], 1),     # extensions ["rs"] <-> ["r","s"]: .rs is Hashy or built-in Rust
+    ([(2, 103)], [(14, 103), (15, 103)], 2),     # extensions ["py"] <-> ["p","y"]
+    ([(10, 100), (11, 100)], [(10, 100)], 11),   # extensions ["foo","bar"] <-> ["foo"]
+    ([(10, 101)], [(10, 107)], 10),              # multi-line pair start/end swapped
+    ([(10, 101)], [(10, 110)], 10),              # one more multi-line pair
+    ([(10, 101)], [(10, 108)], 10),              # language renamed, identical content
+    ([(10, 100)], [(10, 102)], 10),              # another language altogether
+]
 STEMS = {1: "src/f1", 2: "src/f2", 3: "src/g3", 4: "lib/h4", 5: "lib/deep/k5"}
-LINES = ["x=12345;", "// ccccc", "# cccccc", ";; ccccc", "-- ccccc", "        ", "/* cc */", "<< cc >>", "y = f(1)"]
+LINES = ["x=12345;", "// ccccc", "# cccccc", ";; ccccc", "-- ccccc", "        ", "/* cc */", "<< cc >>", "y = f(1)",
+         "!ccccccc", "#!cccccc", "/x=1234;", ">> cc <<", "; cccccc"]
 DIRECTIVES = ["// sloc-guard:ignore-file", "# sloc-guard:ignore-file", ";; sloc-guard:ignore-file"]
 CMDS = ["check", "summary", "files", "snapshot"]
 
@@ -33,7 +56,7 @@ def custom_syntax_wire(lid):
     return ";".join(items) if items else ";"
 
 
-def make_contents(rng, n=14):
+def make_contents(rng, n=20):
     """Pool of texts; many share a size (every ordinary line is 8 characters + newline)."""
     pool, seen = [], set()
     while len(pool) < n:
@@ -82,7 +105,42 @@ def contents_wire(contents, tab):
     return ";".join(out)
 
 
+def canon_langs(table):
+    """Canonical table: definitions in name order (as compute_config_hash and TOML see them), extensions in the
+    given order, one definition per name, one owner per extension."""
+    groups, seen_ext = [], set()
+    for e, l in table:
+        if e in seen_ext:
+            continue
+        seen_ext.add(e)
+        for g in groups:
+            if g[0] == l:
+                g[1].append(e)
+                break
+        else:
+            if all(CUSTOM[g[0]][0] != CUSTOM[l][0] for g in groups):
+                groups.append((l, [e]))
+    groups.sort(key=lambda g: CUSTOM[g[0]][0])
+    return [(e, l) for l, es in groups for e in es]
+
+
+def table_key(table):
+    """What the [languages] section says, as a value (the thing the hash must be injective on)."""
+    by = {}
+    for e, l in table:
+        by.setdefault(l, []).append(EXTS[e])
+    return tuple(sorted((CUSTOM[l][0], tuple(es), tuple(CUSTOM[l][1]), tuple(map(tuple, CUSTOM[l][2]))) for l, es in by.items()))
+
+
 def rand_langs(rng, many=False):
+    r0 = rng.random()
+    if r0 < 0.30:
+        a, b, _ = rng.choice(BOUNDARY_PAIRS)
+        return canon_langs(rng.choice([a, b]))
+    return canon_langs(_rand_langs(rng, many))
+
+
+def _rand_langs(rng, many=False):
     """[languages]: list of (ext id, custom language id), single-owner extensions."""
     r = rng.random()
     if r < 0.35:
@@ -193,6 +251,30 @@ def norm_history(h):
     return out
 
 
+def boundary_history(rng, contents, tab):
+    """SetLanguages A, write, run, SetLanguages B (a boundary-moving / renaming / reordering edit), run: on a file
+    whose classification differs between A and B."""
+    a, b, ext = rng.choice(BOUNDARY_PAIRS)
+    if rng.random() < 0.5:
+        a, b = b, a
+    a, b = canon_langs(a), canon_langs(b)
+
+    def lang(table):
+        return dict(table).get(ext, ext if ext < 10 else None)
+    la, lb = lang(a), lang(b)
+    cands = [cid for cid in range(1, len(contents) + 1) if (tab.get((la, cid)) if la else "skip") != (tab.get((lb, cid)) if lb else "skip")]
+    cid = rng.choice(cands) if cands else rng.randint(1, len(contents))
+    t = T0 + rng.randrange(0, 1000)
+    p = (rng.choice(list(STEMS)), ext)
+    h = [("L", a), ("W", p, cid, t)]
+    if rng.random() < 0.5:
+        h.append(("W", (rng.choice(list(STEMS)), rng.choice([1, 2, 10])), rng.randint(1, len(contents)), t))
+    h += [("X", rng.choice(CMDS), [], t + 2), ("L", b), ("X", rng.choice(CMDS), [], t + 3)]
+    if rng.random() < 0.5:
+        h += [("L", a), ("X", rng.choice(CMDS), [], t + 4)]
+    return h
+
+
 def ops_wire(h):
     out = []
     for o in h:
@@ -215,7 +297,7 @@ def ops_wire(h):
 
 # ------------------------------------------------------------------ CLI replay
 def config_text(langs):
-    t = '[content]\nextensions = ["rs", "py", "c", "foo", "bar", "zzz"]\nmax_lines = 3\n'
+    t = '[content]\nextensions = ["rs", "py", "c", "foo", "bar", "zzz", "r", "s", "p", "y"]\nmax_lines = 3\n'
     by = {}
     for e, l in langs:
         by.setdefault(l, []).append(EXTS[e])
@@ -332,6 +414,8 @@ def corrupt_cache(sb, kind, rng=None, offset=None, forge=None):
             j = json.loads(data)
         except Exception:
             return                      # already unparsable: stays as it is (model: CCorrupt unchanged)
+        if not (isinstance(j, dict) and isinstance(j.get("files"), dict)):
+            return                      # valid JSON (e.g. the garbage byte `7`) but not a Cache: same
         if kind == "h":
             j["config_hash"] = "0" * 64
         else:
